@@ -19,11 +19,19 @@ KEYWORD_NAMES = ["version", "enum", "impl", "for", "as", "signal", "service", "m
                  "_x", "__", "_", "A", "a1", "Z_9", "u123", "i999", "f320", "x" * 30]
 
 
+KEYWORD_PREFIXED = ["assist", "asas", "ass5_a", "as_", "format", "forS", "implement", "implcan", "modulo", "models",
+                    "signals", "signalled", "enumerate", "enums", "structure2", "versions", "devices", "deviceA",
+                    "serviceable", "methodical", "returnsX", "Optionals", "units", "ranges", "modx", "fork"]
+
+
 def ident(r, avoid=(), type_name=False):
     for _ in range(200):
         c = r.random()
         if c < 0.12:
             n = r.choice(KEYWORD_NAMES)
+        elif c < 0.20:
+            # one word that BEGINS with a keyword of the grammar (a lexer without word boundaries splits it)
+            n = r.choice(KEYWORD_PREFIXED) + r.choice(["", "", "_1", "X"])
         else:
             n = r.choice(LETTERS + "_") + "".join(r.choice(TAIL) for _ in range(r.choice([0, 1, 2, 3, 5, 8])))
         if n in avoid:
@@ -170,6 +178,8 @@ def gen_impl(r, structs, used_pairs):
     st = r.choice(structs)
     proto = "can" if r.random() < 0.3 else ident(r)  # 'can' is the protocol the dbc / can_c / cpp back ends look for
     rename = ident(r) if r.random() < 0.4 else None
+    if rename is not None and r.random() < 0.15:
+        rename = r.choice(["assist", "asas", "ass5_a", "as_", "ask", "asX1"])
     name = rename or st["name"]
     if (name, proto) in used_pairs:
         return None
